@@ -146,7 +146,7 @@ fn main() {
         "thorough" => Tier::Thorough,
         _ => usage(),
     };
-    props::common::MODES_QUICK.store(tier == Tier::Quick, std::sync::atomic::Ordering::Relaxed);
+    props::common::MODES_TIER.store(if tier == Tier::Quick { 1 } else { 2 }, std::sync::atomic::Ordering::Relaxed);
     let seed = std::env::var("VERIF_SEED")
         .ok()
         .and_then(|s| s.parse::<u64>().ok())
